@@ -95,7 +95,7 @@ def build(item, G):
 def main(argv):
   batch_file, out_file, pad = argv[0], argv[1], int(argv[2])
   _pad = [object() for _ in range(pad)]
-  os.chdir(tempfile.mkdtemp(prefix="trworker-"))
+  os.chdir(tempfile.mkdtemp(prefix="trworker-", dir=os.environ.get("VERIF_SCRATCH") or None))      # inside the shard scratch dir: removed with it
   from vlib import specgen as G, cosim
   with open(batch_file) as f:
     batch = json.load(f)
